@@ -109,7 +109,7 @@ func procNow() time.Duration {
 type outcome struct {
 	panicked bool
 	msg      string
-	dt       time.Duration // max(thread CPU, process CPU) of the call
+	dt       time.Duration // thread CPU of the call (kept under this name by the older call sites)
 	thread   time.Duration
 	proc     time.Duration
 	alloc    uint64
@@ -124,11 +124,7 @@ func measure(f func()) outcome {
 	dt := cpuNow() - t0
 	dp := procNow() - p0
 	runtime.ReadMemStats(&m1)
-	d := dt
-	if dp > d {
-		d = dp
-	}
-	return outcome{p, msg, d, dt, dp, m1.TotalAlloc - m0.TotalAlloc}
+	return outcome{p, msg, dt, dt, dp, m1.TotalAlloc - m0.TotalAlloc}
 }
 
 // budget of a call; extraAlloc is what a dependency was measured to allocate on the same input
@@ -141,6 +137,14 @@ type budget struct {
 }
 
 func (b budget) allocMax() uint64      { return allocBase + allocPerByte*uint64(b.n) + b.extraAlloc }
+
+// procMax: the budget of the PROCESS clock.  It contains the garbage collector's background workers (about a
+// nanosecond or two of marking per allocated byte, also for garbage left by earlier calls), hence twice the thread
+// budget plus 4 ns per byte the call allocated.  A parser that hides its work on another goroutine is still held to
+// a budget of the same order.
+func (b budget) procMax(alloc uint64) time.Duration {
+	return 2*b.timeMax() + time.Duration(4*alloc)*time.Nanosecond
+}
 func (b budget) timeMax() time.Duration { return timeBase + time.Duration(b.n)*timePerByte + b.timeExtra }
 
 // g runs f (one call of an entry point, with whatever accessors follow) under recover with the budgets.
@@ -151,16 +155,21 @@ func g(entry, stream, key string, b budget, replay func() interface{}, f func() 
 	wd.begin(entry, replay)
 	passed := false
 	o := measure(func() { passed = f() })
-	if !o.panicked && o.dt > b.timeMax() {
-		for i := 0; i < 2 && o.dt > b.timeMax(); i++ {
+	over := func(o outcome) bool { return o.thread > b.timeMax() || o.proc > b.procMax(o.alloc) }
+	if !o.panicked && over(o) {
+		for i := 0; i < 2 && over(o); i++ {
 			o2 := measure(func() { f() })
-			if o2.dt < o.dt {
-				o.dt, o.thread, o.proc = o2.dt, o2.thread, o2.proc
+			if o2.thread < o.thread {
+				o.thread = o2.thread
+			}
+			if o2.proc < o.proc {
+				o.proc = o2.proc
 			}
 			if o2.alloc < o.alloc {
 				o.alloc = o2.alloc
 			}
 		}
+		o.dt = o.thread
 	}
 	if !o.panicked && !b.noAlloc && o.alloc > b.allocMax() {
 		o2 := measure(func() { f() })
@@ -175,9 +184,9 @@ func g(entry, stream, key string, b budget, replay func() interface{}, f func() 
 			map[string]interface{}{"entry": entry, "stream": stream, "input": replay(), "panic": o.msg})
 		return false
 	}
-	if o.dt > b.timeMax() {
-		rep.Violate("C08:"+entry+":time", fmt.Sprintf("%s took %v of CPU time (calling thread %v, whole process %v) on an input of %d bytes (budget %v)", entry, o.dt, o.thread, o.proc, b.n, b.timeMax()),
-			map[string]interface{}{"entry": entry, "stream": stream, "input": replay(), "elapsed_ms": o.dt.Milliseconds(), "budget_ms": b.timeMax().Milliseconds(), "input_len": b.n})
+	if over(o) {
+		rep.Violate("C08:"+entry+":time", fmt.Sprintf("%s took %v of CPU time on the calling thread and %v in the whole process (all goroutines) on an input of %d bytes (budgets %v / %v)", entry, o.thread, o.proc, b.n, b.timeMax(), b.procMax(o.alloc)),
+			map[string]interface{}{"entry": entry, "stream": stream, "input": replay(), "elapsed_ms": o.thread.Milliseconds(), "process_cpu_ms": o.proc.Milliseconds(), "budget_ms": b.timeMax().Milliseconds(), "process_budget_ms": b.procMax(o.alloc).Milliseconds(), "input_len": b.n})
 	}
 	if !b.noAlloc && o.alloc > b.allocMax() {
 		rep.Violate("C08:"+entry+":alloc", fmt.Sprintf("%s allocated %d bytes on an input of %d bytes (budget %d = 64 KiB + 4096*len + dependency %d)", entry, o.alloc, b.n, b.allocMax(), b.extraAlloc),
